@@ -2,7 +2,7 @@
     Property theorems only.  ISIMIP step 6: hand model Model/Isimip.v over the REGENERATED masks (K6);
     QDM / CDFt SSR / LinearScaling / DeltaChange: definitions REGENERATED from the source (GenScalars). *)
 From Coq Require Import QArith ZArith List Bool String.
-From IV Require Import QL NP Dist Ecdf GenUtils GenScalars GenPrecip GenIsimip Isimip C16_compose C10_proofs C10_precip.
+From IV Require Import QL NP Dist Ecdf GenUtils GenScalars GenPrecip GenIsimip Isimip C16_compose C10_proofs C10_precip XQ ConfigBase GenConfig C10_isimip_table SDM SDM_proofs.
 Import ListNotations.
 Open Scope Q_scope.
 
@@ -91,3 +91,28 @@ Theorem C10_qm_censored_output_zero_or_above : forall (P : Type) (G : dist P) gf
   Forall (fun v => v = 0 \/ cth <= v) out.
 Proof. exact @qm_censored_output_zero_or_above. Qed.
 Print Assumptions C10_qm_censored_output_zero_or_above.
+
+(** ---- the ISIMIP per-variable settings (EXTRACTED from _isimip_options.py on every run): bounds and thresholds
+    are ordered lower bound <= lower threshold < upper threshold <= upper bound for each of the ten variables, and
+    every variable with a bound or threshold runs without detrending, so that step 7 (REGENERATED) returns the
+    step-6 values unchanged: the structure proved for step 6 above is that of the window's final output *)
+Theorem C10_isimip_settings_well_formed : forallb (fun p => settings_well_formed (snd p)) isimip_variable_settings = true.
+Proof. exact isimip_settings_well_formed. Qed.
+Print Assumptions C10_isimip_settings_well_formed.
+
+Theorem C10_isimip_bounded_variables_not_detrended :
+  forallb (fun p => implb (is_bounded (snd p)) (negb (iv_detrending (snd p)))) isimip_variable_settings = true.
+Proof. exact isimip_bounded_not_detrended. Qed.
+Print Assumptions C10_isimip_bounded_variables_not_detrended.
+
+Theorem C10_step7_keeps_step6_values : forall name v cm trend, In (name, v) isimip_variable_settings -> is_bounded v = true ->
+  isimip_step7 (iv_detrending v) cm trend = cm.
+Proof. exact step7_bounded_variables. Qed.
+Print Assumptions C10_step7_keeps_step6_values.
+
+(** ScaledDistributionMapping, relative variant for precipitation (hand model Model/SDM.v, correspondence K15): the
+    output is never negative for an amounts distribution on the non-negative half line *)
+Theorem C10_sdm_relative_nonneg : forall (P : Type) (D : dist P), (forall p q, 0 <= ppf D p q) ->
+  forall pr_thr cdf_thr obs hist fut out, sdm_relative D pr_thr cdf_thr obs hist fut = Some out -> Forall (fun v => 0 <= v) out.
+Proof. exact @sdm_relative_nonneg. Qed.
+Print Assumptions C10_sdm_relative_nonneg.
